@@ -251,3 +251,4 @@ End Shapes.
 Arguments pp T X : clear implicits.
 Arguments entry_in T : clear implicits.
 Arguments entry_out T : clear implicits.
+Arguments mkPP {T X}. Arguments pp_k {T X}. Arguments pp_t {T X}. Arguments pp_c {T X}. Arguments pp_n {T X}.
